@@ -147,7 +147,23 @@ func (st *State) binop(op token.Token, xt types.Type, a, b Value) Value {
 	case Str:
 		y := b.(Str)
 		if x.Sym != nil || y.Sym != nil {
-			panic(errUnsupported("symbolic string op"))
+			switch op {
+			case token.ADD:
+				return mkStr(append(append([]Int(nil), sbytes(x)...), sbytes(y)...))
+			case token.EQL:
+				return st.strEq(x, y)
+			case token.NEQ:
+				return st.boolFrom(st.TS.Not(st.bterm(st.strEq(x, y))))
+			case token.LSS:
+				return st.strLess(x, y)
+			case token.GTR:
+				return st.strLess(y, x)
+			case token.LEQ:
+				return st.boolFrom(st.TS.Not(st.bterm(st.strLess(y, x))))
+			case token.GEQ:
+				return st.boolFrom(st.TS.Not(st.bterm(st.strLess(x, y))))
+			}
+			panic(errUnsupported("symbolic string op " + op.String()))
 		}
 		switch op {
 		case token.ADD:
@@ -311,11 +327,7 @@ func (st *State) equals(a, b Value) Bool {
 	case Bool:
 		return st.boolFrom(ts.Eq(st.bterm(x), st.bterm(b.(Bool))))
 	case Str:
-		y := b.(Str)
-		if x.Sym != nil || y.Sym != nil {
-			panic(errUnsupported("symbolic string equality"))
-		}
-		return Bool{C: x.S == y.S}
+		return st.strEq(x, b.(Str))
 	case Ptr:
 		y, ok := b.(Ptr)
 		if !ok {
@@ -467,7 +479,14 @@ func (st *State) convert(from, to types.Type, v Value) Value {
 	case Str:
 		if sl, ok := to.Underlying().(*types.Slice); ok {
 			if x.Sym != nil {
-				panic(errUnsupported("[]byte(symbolic string)"))
+				if eb, _, _ := basicInfo(sl.Elem()); eb == 8 {
+					d := make([]Value, len(x.Sym))
+					for i, b := range x.Sym {
+						d[i] = b
+					}
+					return Slice{Data: d}
+				}
+				panic(errUnsupported("[]rune(symbolic string)"))
 			}
 			if eb, _, _ := basicInfo(sl.Elem()); eb == 8 {
 				d := make([]Value, len(x.S))
@@ -486,15 +505,11 @@ func (st *State) convert(from, to types.Type, v Value) Value {
 		return x
 	case Slice:
 		if b, ok := to.Underlying().(*types.Basic); ok && b.Info()&types.IsString != 0 {
-			bs := make([]byte, len(x.Data))
+			bs := make([]Int, len(x.Data))
 			for i, e := range x.Data {
-				ei := e.(Int)
-				if ei.T != nil {
-					panic(errUnsupported("string(symbolic bytes)"))
-				}
-				bs[i] = byte(ei.C)
+				bs[i] = e.(Int)
 			}
-			return Str{S: string(bs)}
+			return mkStr(bs)
 		}
 		return x
 	case Ptr:
@@ -644,7 +659,7 @@ func (st *State) rangeOf(fr *frame, x *ssa.Range) Value {
 		return &mapIter{Entries: b.ordered(st.Policy)}
 	case Str:
 		if b.Sym != nil {
-			panic(errUnsupported("range over symbolic string"))
+			return &symStrIter{B: b.Sym}
 		}
 		return &strIter{S: b.S}
 	}
@@ -661,6 +676,20 @@ func (st *State) next(fr *frame, x *ssa.Next) Value {
 		e := it.Entries[it.Pos]
 		it.Pos++
 		return Tuple{Bool{C: true}, e.K, copyVal(e.V)}
+	case *symStrIter:
+		// ASCII assumption (bytes < 0x80): one byte is one rune
+		if it.Pos >= len(it.B) {
+			return Tuple{Bool{C: false}, mkInt(64, true, 0), mkInt(32, true, 0)}
+		}
+		b := it.B[it.Pos]
+		it.Pos++
+		var r Int
+		if b.T == nil {
+			r = mkInt(32, true, b.C)
+		} else {
+			r = st.fromTerm(st.TS.ZExt(b.T, 32), 32, true)
+		}
+		return Tuple{Bool{C: true}, mkInt(64, true, uint64(it.Pos-1)), r}
 	case *strIter:
 		if it.Pos >= len(it.S) {
 			return Tuple{Bool{C: false}, mkInt(64, true, 0), mkInt(32, true, 0)}
@@ -872,7 +901,7 @@ func (st *State) block(what string) {
 		}
 	}
 	if !progressed {
-		st.event("deadlock", "all goroutines are asleep: "+what, nil)
+		st.event("deadlock", "all goroutines are asleep: "+what, st.pcModel())
 		panic(pathEnd{"deadlock"})
 	}
 }
